@@ -429,6 +429,31 @@ def rule_A2(ctx):
                     merges.append(n)
                 if isinstance(n, ast.Assign) and any(isinstance(t, ast.Name) and t.id == rn for t in n.targets) and (isinstance(n.value, ast.BinOp) and isinstance(n.value.op, ast.BitOr) or (isinstance(n.value, ast.Dict) and any(k is None for k in n.value.keys))):
                     merges.append(n)
+        # the same, through helpers newer than the rules: entries counted into a dictionary that is not the returned
+        # object (one per chain) have to be merged; a merge that lets `record.update(other_record)` / `d.update(other)`
+        # stand (no count restored afterwards) overwrites the accumulated count
+        from ..astutil import new_helper_scope
+
+        scope = new_helper_scope(prog, f)
+        same_object = bool(got) and all(_bind(prog, g, ct).get("topologies") is ex.result for g in got)
+        if not same_object and len(scope) > 1:
+            for h in scope[1:]:
+                hp = set(h.params)
+                for n in ast.walk(h.node):
+                    if isinstance(n, ast.Call) and isinstance(n.func, ast.Attribute) and n.func.attr == "update" and n.args and not n.keywords:
+                        later_count = False
+                        for st_ in ast.walk(h.node):
+                            if isinstance(st_, (ast.Assign, ast.AugAssign)) and getattr(st_, "lineno", 0) > n.lineno:
+                                for t in (st_.targets if isinstance(st_, ast.Assign) else [st_.target]):
+                                    if isinstance(t, ast.Subscript) and isinstance(t.slice, ast.Constant) and t.slice.value == "count":
+                                        later_count = True
+                        roots = {x.id for x in ast.walk(n.args[0]) if isinstance(x, ast.Name)}
+                        if not later_count and (roots & hp or any(isinstance(a, ast.Name) for a in [n.args[0]])):
+                            merges.append(n)
+                    if isinstance(n, ast.AugAssign) and isinstance(n.op, ast.BitOr):
+                        merges.append(n)
+            if not merges:
+                raise AnalysisError("A2: the entries are counted into per-chain dictionaries that %s merges into the result; what the merge does to the counts and maxima of a topology seen in several chains is not modelled" % ", ".join(h.name for h in scope[1:]))
         ctx.check(not merges, "A2", "create_topology_dict_from_trace: one dictionary accumulates over all chains (no overwrite-merge of per-chain dictionaries)", f.where(merges[0]) if merges else f.where(), "`%s` merges a separately counted dictionary into the result by overwriting: a topology sampled in several chains keeps only the last chain's count and maximum" % (u(merges[0])[:80] if merges else ""), construct=f.qualname, stmt="overwrite-merge of topology dictionaries")
     ctx.analysed(f)
     # ---- one entry
